@@ -448,7 +448,7 @@ class Fn:
         see model.edge_guards."""
         if b not in self._reach_without_edge(tuple(edge)):
             return True
-        if os.environ.get("VERIF_NO_FLAGS") or not self.flag_switches():
+        if os.environ.get("VERIF_NO_FLAGS") or not (self.flag_switches() or self.enum_flag_switches()):
             return False
         k = (tuple(edge), b)
         c = self._reach_cache.get(("eg", k))
@@ -457,6 +457,46 @@ class Fn:
             c = bool(edge_guards(self, edge, b))
             self._reach_cache[("eg", k)] = c
         return c
+    def enum_flag_switches(self):
+        """switches on the discriminant of a local all of whose definitions are enum aggregates built in this body
+        (`let next = if c { Step::A } else { Step::B }; match next {..}`): [(site, switch_info, local, {variant: [def sites]})]"""
+        fs = getattr(self, "_enum_flag_switches", None)
+        if fs is None:
+            fs = []
+            vol = self.volatile_locals()
+            for site, t in self.switches():
+                if t["dty"] == "bool":
+                    continue
+                info = self.switch_info(site)
+                if info.get("kind") != "enum" or "disc_place" not in info:
+                    continue
+                l, proj = info["disc_place"]
+                if proj or l in vol:
+                    continue
+                # look through one whole-local move
+                ds = [d for d in self.defs().get(l, []) if d[1] in ("assign", "call", "resume")]
+                for _ in range(3):
+                    if len(ds) == 1 and ds[0][1] == "assign" and ds[0][2]["rv"]["k"] == "use" and op_place(ds[0][2]["rv"]["op"]) is not None and not op_place(ds[0][2]["rv"]["op"])[1]:
+                        l2 = op_place(ds[0][2]["rv"]["op"])[0]
+                        if l2 in vol:
+                            break
+                        ds = [d for d in self.defs().get(l2, []) if d[1] in ("assign", "call", "resume")]
+                        l = l2
+                    else:
+                        break
+                if len(ds) < 2:
+                    continue
+                byv = {}
+                ok = True
+                for dsite, kind, st in ds:
+                    if kind != "assign" or st["rv"]["k"] != "agg" or st["rv"].get("kind") != "adt" or st["rv"].get("variant") is None:
+                        ok = False
+                        break
+                    byv.setdefault(st["rv"]["variant"], []).append(dsite)
+                if ok:
+                    fs.append((site, info, l, byv))
+            self._enum_flag_switches = fs
+        return fs
     def volatile_locals(self):
         """locals that are mutably borrowed / address-taken somewhere in the body: they can change behind a flow-insensitive
         reading of their definitions"""
@@ -469,7 +509,16 @@ class Fn:
             self._volatile = v
         return v
     def edges_dominate(self, edges, b):
-        return b not in self.reach(self.entry(), no_edges=list(edges))
+        """`b` executes only if one of `edges` was taken (plain, or through a recorded decision: model.edge_guards)"""
+        edges = [tuple(e) for e in edges if e]
+        if not edges:
+            return False
+        if b not in self.reach(self.entry(), no_edges=edges):
+            return True
+        if os.environ.get("VERIF_NO_FLAGS") or not (self.flag_switches() or self.enum_flag_switches()):
+            return False
+        from .model import edge_guards
+        return bool(edge_guards(self, edges, b))
     def after(self, a):
         """sites strictly reachable after a (via at least one step)"""
         out = set()
